@@ -164,7 +164,7 @@ impl Prop for C11 {
     type Case = Case;
     const ID: &'static str = "C11";
     const NUM: u64 = 11;
-    const RULE: &'static str = "pairs of digraphs (equal and different orders 1..40 quick / 1..100 thorough; row counts drawn relative to the generated CPU count k: k-1, k, k+1, 2k+1, 3k-1, 5k+3) in AdjacencyList, AdjacencyMap, AdjacencyMatrix, EdgeList (+ AdjacencyListWeighted for converse), and pairs of AdjacencyMap digraphs with non-contiguous ids (interleaved, overlapping, disjoint key sets) built through the public API; a non-empty vertex subset for filter_vertices; k in 1..=16 set with sched_setaffinity. About one random case in 25 has a large order (17..140, weighted towards 63..66, 96, 127..130, 140; at most 700 arcs). A low-rate 'huge' leg adds digraphs of 200..3100 vertices with O(n) arcs (paths, circuits, stars, wheels, trees, one row of exactly 255/256/257 out-neighbours, arcs in the last rows, complete below 300). Non-trivial = both operands have a common arc and a private arc each, and (k < row count or the vertex set is not 0..|V|); distinct = distinct serialised case.";
+    const RULE: &'static str = "pairs of digraphs (equal and different orders 1..40 quick / 1..100 thorough; row counts drawn relative to the generated CPU count k: k-1, k, k+1, 2k+1, 3k-1, 5k+3) in AdjacencyList, AdjacencyMap, AdjacencyMatrix, EdgeList (+ AdjacencyListWeighted for converse), and pairs of AdjacencyMap digraphs with non-contiguous ids (interleaved, overlapping, disjoint key sets) built through the public API; a non-empty vertex subset for filter_vertices; k in 1..=16 set with sched_setaffinity. About one random case in 25 has a large order (17..140, weighted towards 63..66, 96, 127..130, 140; at most 700 arcs). A low-rate 'huge' leg adds digraphs of 200..3100 vertices with O(n) arcs (paths, circuits, stars, wheels, trees, one row of exactly 255/256/257 out-neighbours, arcs in the last rows, complete below 300). Operations are also applied to the results of other operations (union.complement.converse, complement.union(converse), complement/converse commuting, complement/union/converse of a filter_vertices result) for order <= 64. Non-trivial = both operands have a common arc and a private arc each, and (k < row count or the vertex set is not 0..|V|); distinct = distinct serialised case.";
     const ASSUMPTIONS: &'static [&'static str] = &[
         "union of fixed-order representations is judged with V = 0..max(order)",
         "filter_vertices is only called with a selection that keeps at least one vertex",
